@@ -397,6 +397,7 @@ def run(rep, tier, seed, only=None):
     rep.bounds = {"circuits": "feature family + seeded DAGs <=5 inputs / <=10 (quick) <=13 (thorough) gates",
                   "pipelines": "nested |, lists, cleanup light/heavy, repeated idempotent passes"}
     rep.outside = ["the program dimension is enumerated, not solved (no value dimension except pairwise inequivalence)"]
+    rep.bounds['operands of |'] = 'a pipeline that was the left or right operand of | (with a pass or with another pipeline) equals its own passes in sequence, per circuit'
     rep.bounds['object reuse'] = 'one transformer object listed twice in a pipeline (5 first/middle combinations per circuit) vs fresh objects in sequence'
     rep.rule = ("case = (circuit, pass) effect predicate or (circuit, pipeline) sequencing equality; distinct by structural hash; "
                 "pairwise inequivalence after MergeEquivalentGates decided by z3 (sat = distinguishing input)")
